@@ -339,3 +339,20 @@ Proof.
   intros HE HK Hne Hok. apply approximate_bezier_L1_depth19.
   apply (within32_bounded_tight E); assumption.
 Qed.
+
+(* ---------- the pieces, as stated in Properties/C01.v ---------- *)
+
+Lemma contraction_tight_ok E D pts : (0 <= E <= 126)%Z -> 0 <= D -> Inv E D pts ->
+  let D' := D / 4 + INR (length pts) * uE E in
+  Inv E D' (fst (sub32 pts)) /\ Inv E D' (snd (sub32 pts)).
+Proof. intros HE. exact (Inv_children_tight E HE D pts). Qed.
+
+Lemma flat_test_gen_ok E D pts : (0 <= E <= 100)%Z -> Inv E D pts -> D + bp (E - 23) <= 11 / 32 ->
+  flat_enough pts = true.
+Proof.
+  intros HE. assert (H126 : (0 <= E <= 126)%Z) by lia. exact (Inv_flat_gen E H126 D pts (proj2 HE)).
+Qed.
+
+Example ex_seg_terminates_tight path :
+  exists path', approximate_bezier_L1 bezier_fuel path ex_seg tt = Done (path', tt).
+Proof. apply (T01g_ieee_bounded_tight 17); [lia|vm_compute; discriminate|discriminate|exact ex_seg_ok]. Qed.
